@@ -264,6 +264,14 @@ def gen_spec(rng, *, backend="pandas", kind=None, allow_flavors=True,
                                  gen_index_level(rng, "i1", "str")]
                 for lv in spec["index"]:
                     lv["unique"] = False
+            if any(c["kind"] != "custom" for c in dfc):
+                # numeric frame-level checks: keep the index numeric as well
+                # so that reset_index() of schema and frame stays acceptable
+                spec["index"] = [gen_index_level(rng, lv["name"], "int")
+                                 for lv in spec["index"]]
+                if len(spec["index"]) > 1:
+                    for lv in spec["index"]:
+                        lv["unique"] = False
             if frame_dtype:      # a frame-level dtype also overrides the index
                 spec["index"] = [gen_index_level(rng, lv["name"], frame_dtype)
                                  for lv in spec["index"]]
